@@ -13,7 +13,7 @@ import GB.Base.Bytes
   The AST (`Tmpl`) is what `gwbased.Parse` returns; parsing itself is property C20's model.
   Two matchers are defined: the opcode interpreter over the compiled pattern (`matchAndEscape`, the code),
   and `matchSegs`, a structural matcher over the AST; `Proofs.lean` shows they agree
-  (`matchAndEscape_compile`) and that `matchSegs` decides the declarative relation of `Spec.lean`.
+  (`matchAndEscape_compile`, ProofsResolve.lean) and that `matchSegs` decides the declarative relation of `Spec.lean`.
 -/
 namespace GB.C03
 
@@ -419,15 +419,50 @@ def beforeQuery : Bytes → Bytes
   | [] => []
   | c :: rest => if c = 63 then [] else c :: beforeQuery rest
 
-/-- `url.ParseRequestURI(raw)` restricted to origin-form targets (`raw` starts with `/`) and `*`;
-    outer `none` = outside the modelled domain (absolute-form / authority-form / relative targets),
-    inner `none` = parse error. With an empty scheme and `viaRequest` no authority is split off.
-    Both query branches of `parse` (`ForceQuery` / `strings.Cut`) leave the text before the first `?`. -/
+def isLetter (c : UInt8) : Bool := (97 ≤ c && c ≤ 122) || (65 ≤ c && c ≤ 90)
+
+/-- `getScheme`: `none` = error ("missing protocol scheme"), `some none` = no scheme,
+    `some (some (scheme, rest))` = `scheme:rest`. `first` is `i == 0`. -/
+def getScheme (first : Bool) (acc : Bytes) : Bytes → Option (Option (Bytes × Bytes))
+  | [] => some none
+  | c :: r =>
+    if isLetter c then getScheme false (acc ++ [c]) r
+    else if (48 ≤ c && c ≤ 57) || c == 43 || c == 45 || c == 46 then
+      (if first then some none else getScheme false (acc ++ [c]) r)
+    else if c == 58 then (if first then none else some (some (acc, r)))
+    else some none
+
+/-- authorities whose `parseAuthority` is certainly fine and has no effect on the path:
+    `[A-Za-z0-9.-]*` optionally followed by `:` and digits (no userinfo, no IPv6 literal, no escapes) -/
+def simpleAuth (a : Bytes) : Bool :=
+  let host := a.takeWhile (· != 58)
+  let port := a.dropWhile (· != 58)
+  host.all (fun c => isAlnum c || c == 46 || c == 45) &&
+    (match port with
+     | [] => true
+     | _ :: ds => ds.all fun c => 48 ≤ c && c ≤ 57)
+
+/-- `url.ParseRequestURI(raw)` (`parse(raw, viaRequest = true)`): control-character check, empty, `*`, `getScheme`,
+    query cut (both branches of the code — `ForceQuery` / `strings.Cut` — leave the text before the first `?`),
+    then: no scheme ⇒ the target must start with `/` and no authority is split off; with a scheme ⇒ opaque
+    (`Path` empty) / `//authority` + path / `/path`. Outer `none` = outside the modelled domain (an authority that is
+    not `simpleAuth`: userinfo, IPv6 literals, escapes, odd ports); inner `none` = parse error. -/
 def parseRequestURI (raw : Bytes) : Option (Option Url) :=
-  if raw = [42] then some (some { path := [42], rawPath := [] })
-  else match raw with
-    | 47 :: _ => some (if containsCTL raw then none else setPath (beforeQuery raw))
-    | _ => none
+  if containsCTL raw then some none
+  else if raw = [] then some none
+  else if raw = [42] then some (some { path := [42], rawPath := [] })
+  else match getScheme true [] raw with
+    | none => some none
+    | some none =>
+      match raw with
+      | 47 :: _ => some (setPath (beforeQuery raw))
+      | _ => some none
+    | some (some (_, rest)) =>
+      match beforeQuery rest with
+      | 47 :: 47 :: a =>
+        if simpleAuth (a.takeWhile (· != 47)) then some (setPath (a.dropWhile (· != 47))) else none
+      | 47 :: r => some (setPath (47 :: r))
+      | _ => some (some { path := [], rawPath := [] })
 
 /-! ## PatternRouter.RouteHTTP -/
 
